@@ -7,18 +7,21 @@ XV = 'xval(self._parsed_expression, label_scope)'
 XF = 'xfails(self._parsed_expression, label_scope)'
 GV = dict(params={'label_scope': 'LabelScope?', 'instruction_address': 'int?', 'instruction_size': 'int'})
 
+# (C14 reads only `ensures`: the value handed to the width check of append_bits is the operand's real value -- a part that
+#  folds an out-of-range value into range defeats "a value its field cannot hold is rejected"; the min/max/zone exits are C12's)
+C14_ENSURES = {'C14': ['ensures[']}
 # the unconstrained expression part: value of the operand text
-contract(P + 'ExpressionByteCodePart.get_value', props=['C12', 'C01'], name='C12:ExpressionByteCodePart.get_value',
-         raises={'SystemExit': XF}, ensures=[f'result == {XV}'], modifies=[], **GV)
+contract(P + 'ExpressionByteCodePart.get_value', props=['C12', 'C01', 'C14'], name='C12:ExpressionByteCodePart.get_value',
+         only_for=C14_ENSURES, raises={'SystemExit': XF}, ensures=[f'result == {XV}'], modifies=[], **GV)
 
 # min / max  (bit-index style operands)
-contract(P + 'ExpressionByteCodePartWithValidation.get_value', props=['C12'],
+contract(P + 'ExpressionByteCodePartWithValidation.get_value', props=['C12', 'C14'], only_for=C14_ENSURES,
          raises={'SystemExit': f'{XF} or (self._max is not None and {XV} > self._max)'
                                f' or (self._min is not None and {XV} < self._min)'},
          ensures=[f'result == {XV}'], modifies=[], **GV)
 
 # inside a memory zone (address operands and operands flagged valid_address)
-contract(P + 'ExpressionByteCodePartInMemoryZone.get_value', props=['C12'],
+contract(P + 'ExpressionByteCodePartInMemoryZone.get_value', props=['C12', 'C14'], only_for=C14_ENSURES,
          raises={'SystemExit': f'{XF} or (self._memzone is not None and '
                                f'({XV} > self._memzone._end or {XV} < self._memzone._start))'},
          ensures=[f'result == {XV}'], modifies=[], **GV)
@@ -41,7 +44,7 @@ def rel_offset(part, target, instruction_address, instruction_size):
 
 INZONE = f'(self._memzone is not None and ({XV} > self._memzone._end or {XV} < self._memzone._start))'
 OFF = f'rel_offset(self, {XV}, value_of(instruction_address), instruction_size)'
-contract(R, props=['C12'],       # (C14's "value its field cannot hold" is the width check of PackedBits.append_bits)
+contract(R, props=['C12', 'C14'], only_for=C14_ENSURES,      # (C14's "value its field cannot hold" is the width check of PackedBits.append_bits)
          raises={'ValueError': 'instruction_address is None',
                  'SystemExit': f'instruction_address is not None and ({XF} or {INZONE}'
                                f' or (self._max_relative_value is not None and {OFF} > self._max_relative_value)'
